@@ -522,6 +522,8 @@ class AliasInit(FunctionContract):
         al = e['obj'].fields.get('aliases')
         ctx.prove(z3.BoolVal(al == want), 'every_alias_resolves_to_the_variable_at_the_end_of_its_chain_(self_maps_dropped)', 'ensures', note=f'{e["amap"]} -> {al}, expected {want}')
         ctx.prove(z3.BoolVal(dict(e['cls'].ALIASES) == e['amap'] and al is not e['cls'].ALIASES), 'class_level_table_untouched_and_not_shared', 'frame')
+        pn = e['obj'].fields.get('preferred_names')
+        ctx.prove(z3.BoolVal(pn == list(e['cls'].PREFERRED_NAMES) and pn is not e['cls'].PREFERRED_NAMES), 'instance_preferences_are_a_copy_of_the_class_level_list', 'own')
         ok = len(e['parent']) == 1
         ctx.prove(z3.BoolVal(ok), 'parent_constructor_called_exactly_once', 'ensures')
         if ok:
